@@ -68,8 +68,12 @@ def run(res, proofs_ok, proofs_why):
     if not ok:
         toks, out, why = ra_search(cfg, res)
         if toks:
+            toks = _shm.clean_ra(cfg, [toks])[0]
+            impl = c.run_lines(binary, [_shm.line_of(cfg, toks)])[0]
             res.violation({"property": "C03", "kind": "history",
                            "case": {"schedule": _shm.tok_str(toks), "model_execution": out,
+                                    "real_snapshot_under_simulated_memory": impl,
+                                    "real_reader_same_as_model": impl == c.run_model([_shm.line_of(cfg, toks)])[0],
                                     "why": ["under the release/acquire model, with the orderings and fences measured from the running code: " + why +
                                             " (R j k = the load returns event k of the writer's log)"]},
                            "obligation": "safe_cfg current_cfg = true fails: " + log[-600:],
@@ -94,6 +98,7 @@ def replay(res, path):
             return 1
         toks = _shm.parse_tok_str(case["schedule"])
         out = c.run_model([_shm.line_of(cfg, toks)])[0]
+        print("real snapshot() under the engine's simulated memory:", c.run_lines(binary, [_shm.line_of(cfg, _shm.clean_ra(cfg, [toks])[0])])[0])
         print("measured configuration:", cfg)
         print("model execution:", out)
         rets = [ob for ob in _shm.parse_obs(out) if ob["t"] == "T"]
